@@ -13,8 +13,15 @@ R2 dispatch and read-only agreement (P11) in `data.manager._copy`: the three bra
    (source local) / (not source local, destination local) / (neither); every path performs exactly one of the
    three copies; each passes `src`, `dst`, the right locations and connectors, and `read_only=not writable`.
 R3 availability typestate (P3).  In DefaultDataManager every `DataLocation` created unavailable and published
-   with `path_mapper.put` is collected and reaches `available.set()` on every normal path to return; in
-   `transfer_data` every `_copy` task is awaited (gather) before the first `available.set()`, a copy that
+   with `path_mapper.put` is collected (created inside the list display / `append` call, or held in a local that is
+   put into the list by `C = [h]`, `C.append(h)`, `C += [h]`, `C.extend([h])`; registered as the local, an alias or an
+   element of the collection; the collection is not bound anew or emptied before the final loop, which visits every
+   element) and reaches `available.set()` on every normal path to return; in
+   `transfer_data` the DataLocation registered (`path_mapper.put`) for a destination while its copy is still to be
+   awaited is created NOT available -- decided on the effective `available` argument: the explicit value (through
+   temporaries, positional or keyword) or, when omitted, the resolved signature default of `DataLocation.__init__`
+   (the call relies on it; a flipped default advertises every in-flight destination as a complete copy) --,
+   every `_copy` task is awaited (gather) before the first `available.set()`, a copy that
    reads from a registered location waits for that location to be available first, every destination is
    served by exactly one copy task (same-location copy XOR the shared remote copy), and a read-only copy is
    registered SYMBOLIC_LINK exactly when `is_symlink()` says so.
@@ -31,6 +38,16 @@ R5 copies materialise symbolic links (dereference policy).  Only the read-only `
    True, a tar *create* command (`tar c..`) carries `h`/`--dereference`, `aiotarstream.open(mode='w')` passes
    `dereference=True` (the class default is False).  `/bin/cp -rf` of copy_same_connector does NOT dereference
    (GNU/busybox `-r` implies `-P`): reported as an observation, not armed (see report).
+R6 side agreement (P11).  The transfer helpers name the two sides of a copy in their signatures (`src_connector` /
+   `source_connector`, `src_location` / `source_location`, `src` versus `dst_connector`, `dst_location(s)`, `dst`; in a
+   helper that receives the source connector separately the unprefixed `connector` / `location(s)` are the
+   destination's).  Every connector operation (`run`, `get_stream_reader`, `get_stream_writer`) and every resolved helper
+   call in get_local_to_remote_destination, get_remote_to_remote_write_command and connector/base.py addresses ONE side:
+   the connector, the location (parameter, element of it, loop variable over it, temporary), the path operands of the
+   command (when all of them belong to one side) and the stream direction (reader = source, writer = destination)
+   agree -- `test -d <src>` answered by the destination host picks the wrong tar writer and a directory arrives as
+   one file.  Values forwarded under a side-named keyword (`src_connector=`, `dst_locations=`, ...) keep their side.
+   Commands that legitimately name both paths (`cp src dst` on one location) and log/format calls are not constrained.
 
 Left out: equality of contents/structure/executable bits at the destination (needs execution); the tar flag
 `p` (not necessary: the x bit survives any usual umask); connector-specific copy paths of docker/ssh/kubernetes/queue managers (outside the property's
@@ -46,7 +63,7 @@ from ..cfg import ALL, NORMAL
 from ..dataflow import fragments
 from ..model import unparse
 from ..selftest import V
-from ._util_E import coexec, deref, guard_atoms, ids_at, ktext, loop_binding, loops_of, must_follow, only_via, split_atoms
+from ._util_E import coexec, const_of, deref, effective_arg, guard_atoms, ids_at, ktext, loop_binding, loops_of, must_follow, only_via, signature_default, split_atoms
 
 UTILS = "streamflow.core.utils"
 BASE = "streamflow.deployment.connector.base"
@@ -67,7 +84,9 @@ META = {
         "data.manager._copy; must-pass-through of available.set() for every DataLocation published unavailable, gather before "
         "set, wait before reading a registered source; program-wide forwarding table of read_only and polarity of the "
         "link/copy idioms; effective dereference argument/flag of every copy primitive (shutil, tar create commands, "
-        "aiotarstream writers). Necessary structural conditions only."
+        "aiotarstream writers); effective `available` argument (explicit or resolved constructor default) of the DataLocation "
+        "registered before its copy is awaited; agreement of connector / location / path-operand / stream-direction sides at every "
+        "connector operation of the transfer helpers. Necessary structural conditions only."
     ),
     "undecided": "byte equality of regular-file contents, directory structure and executable bits at the destination (needs execution)",
     "assumptions": [
@@ -232,14 +251,139 @@ def _is_dataloc_ctor(prog, f, c: ast.Call) -> bool:
     return DLOC in prog.resolve_call(f, c, fanout=False)
 
 
-def _unavailable(c: ast.Call) -> bool | None:
-    """True = created unavailable, False = created available, None = not decidable."""
-    v = _kw(c, "available", 4)
-    if v is None:
-        return True
-    if isinstance(v, ast.Constant) and isinstance(v.value, bool):
-        return not v.value
-    return None
+def _unavailable(prog, f, c: ast.Call):
+    """-> (created unavailable? (None = not decidable), how) of a DataLocation constructor call; `how` is
+    'explicit' (written at the call) or 'default' (omitted: the resolved signature default of
+    DataLocation.__init__ decides -- the call relies on it)."""
+    init = prog.func(f"{DLOC}.__init__")
+    val, how = effective_arg(init, c, "available")
+    if how not in ("explicit", "default"):
+        return None, how
+    known, v = const_of(f if how == "explicit" else None, val)
+    if known and isinstance(v, bool):
+        return (not v), how
+    return None, how
+
+
+def _copy_pending_ids(prog, f) -> list[int]:
+    """CFG nodes of f at which a `_copy` of the data manager is started or awaited (the call itself, and the
+    gather/wait over the task list it is collected in): whatever can still reach one of them runs before the
+    copy has completed."""
+    g = f.cfg
+    out: list[int] = []
+    for c in f.calls():
+        if f"{MGRMOD}._copy" not in prog.resolve_call(f, c):
+            continue
+        out += ids_at(f, c)
+        node, hops = c, 0
+        while node is not None and hops < 4 and not (isinstance(node, ast.Call) and isinstance(node.func, ast.Attribute) and node.func.attr in ("append", "add")):
+            node = getattr(node, "_parent", None)
+            hops += 1
+        if isinstance(node, ast.Call) and isinstance(node.func, ast.Attribute) and isinstance(node.func.value, ast.Name):
+            lst = node.func.value.id
+            for n_ in g.nodes.values():
+                for a in n_.walk():
+                    if isinstance(a, ast.Await) and isinstance(a.value, ast.Call) and unparse(a.value.func) in ("asyncio.gather", "asyncio.wait", "gather") and any(
+                        isinstance(x, ast.Name) and x.id == lst for arg in a.value.args for x in ast.walk(arg)
+                    ):
+                        out.append(n_.id)
+    return out
+
+
+_DISPLAYS = (ast.List, ast.Tuple, ast.Set)
+
+
+def _display_of(f, e: ast.AST):
+    """The list/tuple/set display an expression denotes (through a temporary or `list(<display>)`), else None."""
+    d = deref(f, e) if isinstance(e, ast.Name) else e
+    if isinstance(d, ast.Call) and isinstance(d.func, ast.Name) and d.func.id in ("list", "tuple", "set") and len(d.args) == 1 and not d.keywords:
+        d = deref(f, d.args[0]) if isinstance(d.args[0], ast.Name) else d.args[0]
+    return d if isinstance(d, _DISPLAYS) else None
+
+
+def _collections_of(f, holder: str):
+    """[(collection name, statement/call that puts `holder` into it)] for a local holding one object: `C.append(h)` /
+    `C.add(h)` / `C.insert(i, h)`, `C.extend([.., h, ..])`, `C += [.., h, ..]`, `C = [.., h, ..]` (a display, also
+    `list(<display>)`; aliases of the holder are followed)."""
+
+    def is_h(x) -> bool:
+        return isinstance(x, ast.Name) and ktext(f, x) == holder
+
+    def has_h(e) -> bool:
+        d = _display_of(f, e)
+        return d is not None and any(is_h(x) for x in d.elts)
+
+    out = []
+    for n in f.body_nodes():
+        if isinstance(n, ast.Call) and isinstance(n.func, ast.Attribute) and isinstance(n.func.value, ast.Name) and not n.keywords:
+            a = n.func.attr
+            if (a in ("append", "add") and len(n.args) == 1 and is_h(n.args[0])) or (a == "insert" and len(n.args) == 2 and is_h(n.args[1])) or (
+                    a in ("extend", "update") and len(n.args) == 1 and has_h(n.args[0])):
+                out.append((n.func.value.id, n))
+        elif isinstance(n, ast.Assign) and len(n.targets) == 1 and isinstance(n.targets[0], ast.Name) and isinstance(n.value, (ast.Call,) + _DISPLAYS) and has_h(n.value):
+            out.append((n.targets[0].id, n))
+        elif isinstance(n, ast.AnnAssign) and isinstance(n.target, ast.Name) and n.value is not None and isinstance(n.value, (ast.Call,) + _DISPLAYS) and has_h(n.value):
+            out.append((n.target.id, n))
+        elif isinstance(n, ast.AugAssign) and isinstance(n.op, ast.Add) and isinstance(n.target, ast.Name) and has_h(n.value):
+            out.append((n.target.id, n))
+    return out
+
+
+def _iterates(f, e: ast.AST, coll: str, depth: int = 4) -> bool:
+    """Does a loop over `e` visit every element of the collection `coll`: the name itself, an alias, or an
+    order/copy wrapper of it (`list(C)`, `tuple(C)`, `reversed(C)`, `sorted(C)`, `iter(C)`, `C.copy()`, `C[:]`)."""
+    while depth > 0:
+        depth -= 1
+        if isinstance(e, ast.Name):
+            if e.id == coll:
+                return True
+            d = deref(f, e)
+            if d is e or not isinstance(d, ast.Name):
+                return False  # a copy taken earlier (`snap = list(C)`) misses what is collected afterwards
+            e = d
+        elif isinstance(e, ast.Call) and isinstance(e.func, ast.Name) and e.func.id in ("list", "tuple", "reversed", "sorted", "iter") and len(e.args) == 1 and not e.keywords:
+            e = e.args[0]
+        elif isinstance(e, ast.Call) and isinstance(e.func, ast.Attribute) and e.func.attr == "copy" and not e.args:
+            e = e.func.value
+        elif isinstance(e, ast.Subscript) and isinstance(e.slice, ast.Slice) and e.slice.lower is None and e.slice.upper is None and e.slice.step is None:
+            e = e.value
+        else:
+            return False
+    return False
+
+
+def _rebinds(f, coll: str, keep) -> list[ast.AST]:
+    """Statements that bind the collection name `coll` anew or empty it (plain / annotated assignment, `del`,
+    `.clear()`), other than the statements `keep` that collect into it."""
+    def keeps(v) -> bool:
+        # `C = list(C)` / `C = C.copy()` / `C = C[:]` / `C = C + [...]` / `C = [*C, ...]` keep every collected element
+        if isinstance(v, ast.Call):
+            inner = v.args[0] if isinstance(v.func, ast.Name) and v.func.id in ("list", "tuple", "sorted", "set", "frozenset") and len(v.args) == 1 else (
+                v.func.value if isinstance(v.func, ast.Attribute) and v.func.attr == "copy" and not v.args else None)
+            return inner is not None and keeps(inner)
+        if isinstance(v, ast.Subscript) and isinstance(v.slice, ast.Slice) and v.slice.lower is None and v.slice.upper is None and v.slice.step is None:
+            return keeps(v.value)
+        if isinstance(v, ast.BinOp) and isinstance(v.op, ast.Add):
+            return keeps(v.left) or keeps(v.right)
+        if isinstance(v, _DISPLAYS):
+            return any(isinstance(x, ast.Starred) and keeps(x.value) for x in v.elts)
+        return isinstance(v, ast.Name) and v.id == coll
+
+    out = []
+    for n in f.body_nodes():
+        if any(n is k for k in keep):
+            continue
+        if isinstance(n, (ast.Assign, ast.AnnAssign)) and n.value is not None and keeps(n.value):
+            continue
+        if isinstance(n, ast.Assign) and any(isinstance(t, ast.Name) and t.id == coll for tt in n.targets for t in ast.walk(tt) if isinstance(t, ast.Name) and isinstance(t.ctx, ast.Store)):
+            out.append(n)
+        elif isinstance(n, ast.AnnAssign) and n.value is not None and isinstance(n.target, ast.Name) and n.target.id == coll:
+            out.append(n)
+        elif isinstance(n, ast.Delete) and any(isinstance(t, ast.Name) and t.id == coll for t in n.targets):
+            out.append(n)
+        elif isinstance(n, ast.Call) and isinstance(n.func, ast.Attribute) and n.func.attr == "clear" and isinstance(n.func.value, ast.Name) and n.func.value.id == coll:
+            out.append(n)
+    return out
 
 
 def r3(ctx):
@@ -253,10 +397,13 @@ def r3(ctx):
         g = f.cfg
         loops = [lp for lp in loops_of(f) if not lp.is_comp]
         puts = [c for c in f.calls() if f"{MAPPER}.put" in prog.resolve_call(f, c)]
+        pending = _copy_pending_ids(prog, f)
         for c in ctors:
-            un = _unavailable(c)
+            un, how = _unavailable(prog, f, c)
             ctx.require(un is not None, f"C22.R3: {f.qualname}: cannot decide the `available` argument of `{unparse(c)[:60]}`")
-            if not un:
+            # an available location created where no copy of this function can follow any more (the data it
+            # denotes is in place) owes nothing
+            if not un and not (pending and any(g.path(x, pending, kinds=NORMAL) is not None for x in ids_at(f, c))):
                 continue
             # holder: X = DataLocation(...) | C = [DataLocation(...)] | C.append(DataLocation(...))
             par = getattr(c, "_parent", None)
@@ -271,28 +418,51 @@ def r3(ctx):
                 coll = par.func.value.id
                 coll_ids = ids_at(f, par)
             ctx.require(holder is not None or coll is not None, f"C22.R3: {f.qualname}: cannot follow the DataLocation created by `{unparse(c)[:60]}`")
-            # publication
+            coll_stmts = [par._parent if isinstance(par, ast.List) else par] if holder is None else []
+            if holder is not None:
+                # the collection a directly held location is put into: C.append(h) | C = [h] | C += [h] | C.extend([h]) ...
+                sites = _collections_of(f, holder)
+                coll = sites[0][0] if sites else None
+                coll_stmts = [s_ for cn, s_ in sites if cn == coll]
+                coll_ids = [i for s_ in coll_stmts for i in ids_at(f, s_)]
+            # publication: the registry receives the holder (or an alias of it) or an element of the collection
             pubs = []
             for p in puts:
                 a = _kw(p, "data_location", 1)
                 if a is None:
                     continue
-                if holder is not None and isinstance(a, ast.Name) and a.id == holder:
+                d = deref(f, a) if isinstance(a, ast.Name) else a
+                if holder is not None and isinstance(a, ast.Name) and ktext(f, a) == holder:
                     pubs.append(p)
-                elif coll is not None and isinstance(a, ast.Subscript) and isinstance(a.value, ast.Name) and a.value.id == coll:
-                    pubs.append(p)
+                elif coll is not None and isinstance(d, ast.Subscript) and isinstance(d.value, ast.Name) and d.value.id == coll:
+                    # an element of the collection; for a directly held location only once it has been collected
+                    # (`C[0]` registered before `C.append(h)` is another location)
+                    if holder is None or all(any(g.dominates(ci, pi) for ci in coll_ids) for pi in ids_at(f, p)):
+                        pubs.append(p)
             if not pubs:
                 continue  # never handed to the registry from here: nothing to owe
+            ptxt = ktext(f, _kw(c, "path", 1)) if _kw(c, "path", 1) is not None else "?"
+            # born unavailable: a location registered while a copy of this function is still to run / running is the
+            # *destination* of that copy; it must not be advertised as available before the copy is awaited
+            early = [p for p in pubs if pending and any(g.path(x, pending, kinds=NORMAL) is not None for x in ids_at(f, p))]
+            if early:
+                init = prog.func(f"{DLOC}.__init__")
+                _d = signature_default(init, "available")[1]
+                via = (f"through the signature default `available={unparse(_d) if _d is not None else '?'}` of DataLocation.__init__ ({init.file}:{init.lineno}) on which this call relies"
+                       if how == "default" else f"explicitly (`available={unparse(_kw(c, 'available', 4))}`)")
+                ctx.ob("R3", f"{f.name}: DataLocation(path={ptxt}) registered before its copy is awaited is created not-available ({how})", bool(un), func=f, node=c,
+                       instance=f"{f.name}:born-unavailable:{holder or coll}:{ptxt}",
+                       message=f"{f.name}: `{holder or coll}` = DataLocation(path={ptxt}) is handed to path_mapper.put while the copy that fills it is still to be awaited, but it is created "
+                               f"AVAILABLE {via}: the in-flight destination is advertised as a complete copy -- `available.wait()` of a concurrent transfer / get_source_location "
+                               "returns at once and the half-written (or still missing) path is used as a source",
+                       witness=[f"constructor: {' '.join(unparse(c).split())[:200]}", f"DataLocation.__init__ signature: {unparse(init.node.args)}"])
+            if not un:
+                continue
             n += 1
-            if holder is not None:
-                apps = [x for x in f.calls() if isinstance(x.func, ast.Attribute) and x.func.attr == "append" and isinstance(x.func.value, ast.Name) and len(x.args) == 1
-                        and isinstance(x.args[0], ast.Name) and x.args[0].id == holder]
-                coll = apps[0].func.value.id if apps else None
-                coll_ids = [i for x in apps for i in ids_at(f, x)]
             # the loop that sets every collected location
             set_loops = []
             for lp in loops:
-                if isinstance(lp.iter, ast.Name) and lp.iter.id == coll and isinstance(lp.target, ast.Name):
+                if coll is not None and _iterates(f, lp.iter, coll) and isinstance(lp.target, ast.Name):
                     v = lp.target.id
                     sets = [x for x in f.calls() if isinstance(x.func, ast.Attribute) and x.func.attr == "set" and ktext(f, x.func.value) == f"{v}.available"
                             and loop_binding(f, v, x, loops) is not None and loop_binding(f, v, x, loops)[0] is lp]
@@ -300,7 +470,6 @@ def r3(ctx):
                         set_loops.append((lp, sets))
             # a directly held location may also be set directly
             direct = [x for x in f.calls() if holder is not None and isinstance(x.func, ast.Attribute) and x.func.attr == "set" and ktext(f, x.func.value) == f"{holder}.available"]
-            ptxt = ktext(f, _kw(c, "path", 1)) if _kw(c, "path", 1) is not None else "?"
             where = f"{f.name}: DataLocation(path={ptxt}) held in `{holder or coll}`, created unavailable"
             inst = f"{f.name}:available:{holder or coll}:{ktext(f, _kw(c, 'path', 1)) if _kw(c, 'path', 1) is not None else ''}"
             ok, why, wit = True, "", []
@@ -310,6 +479,8 @@ def r3(ctx):
                 w = next((w for p in pub_ids if (w := g.escape(p, tgt, kinds=NORMAL)) is not None), None)
                 if w is not None:
                     ok, why, wit = False, "a normal path from the registration to return avoids `available.set()`", g.describe(w)
+            elif coll is None:
+                ok, why = False, f"`{holder}` is registered but neither set available nor collected for a final loop `for x in <collection>: x.available.set()`"
             elif not set_loops:
                 ok, why = False, f"no loop `for x in {coll}: x.available.set()` found"
             else:
@@ -328,6 +499,13 @@ def r3(ctx):
                         g.path(p, lids, avoid=coll_ids, kinds=NORMAL) is None or any(g.dominates(ci, p) for ci in coll_ids) for p in pub_ids
                     ):
                         ok, why = False, f"`{holder}` is registered but not always appended to `{coll}`"
+                    else:
+                        # the collection is not bound anew / emptied between the collection and the loop
+                        for r_ in (i for st in _rebinds(f, coll, coll_stmts) for i in ids_at(f, st)):
+                            w3 = next((a + b[1:] for ci in coll_ids if (a := g.path(ci, [r_], kinds=NORMAL)) is not None and (b := g.path(r_, lids, kinds=NORMAL)) is not None), None)
+                            if w3 is not None:
+                                ok, why, wit = False, f"`{coll}` is bound anew / emptied after the location was collected and before the loop over it", g.describe(w3)
+                                break
             ctx.ob("R3", f"{where} and registered reaches available.set() on every normal path", ok, func=f, node=c, instance=inst,
                    message=f"{f.name}: {why}: the location stays registered but never becomes available -- every later transfer that picks it as a source waits forever",
                    witness=wit)
@@ -726,10 +904,174 @@ def r5(ctx):
                                 "re-created, not materialised, by a writable same-location copy (not armed: present on the pinned tree; reported)")
 
 
-RULES = [("R1", r1), ("R2", r2), ("R3", lambda ctx: (r3(ctx), r3b(ctx))), ("R4", r4), ("R5", r5)]
-FLOORS = {"R1": 10, "R2": 10, "R3": 5, "R4": 14, "R5": 6}
+# --------------------------------------------------------------------------- R6
+
+# The transfer helpers name the two sides of a copy in their signatures.  (kind, side) of a parameter:
+SIDE_PARAMS = {
+    "src_connector": ("connector", "src"), "source_connector": ("connector", "src"), "dst_connector": ("connector", "dst"),
+    "src_location": ("location", "src"), "source_location": ("location", "src"), "src_locations": ("location", "src"), "source_locations": ("location", "src"),
+    "dst_location": ("location", "dst"), "dst_locations": ("location", "dst"),
+    "src": ("path", "src"), "src_path": ("path", "src"), "dst": ("path", "dst"), "dst_path": ("path", "dst"),
+}
+# in a helper that receives the *source* connector separately, the unprefixed connector/locations are the destination's
+UNPREFIXED_DST = {"connector": ("connector", "dst"), "location": ("location", "dst"), "locations": ("location", "dst")}
+STREAM_SIDE = {"get_stream_reader": "src", "get_stream_writer": "dst"}
+SIDE_OPS = ("run", "get_stream_reader", "get_stream_writer")
+SIDE_WORD = {"src": "source", "dst": "destination"}
+
+
+def _param_role(f, name: str):
+    if name not in f.params:
+        return None
+    r = SIDE_PARAMS.get(name)
+    if r is None and name in UNPREFIXED_DST and any(SIDE_PARAMS.get(p) == ("connector", "src") for p in f.params):
+        r = UNPREFIXED_DST[name]
+    return r
+
+
+def _endpoint_role(f, e: ast.AST, at: ast.AST, loops, depth: int = 5):
+    """(kind, side) of the connector / location an argument denotes: a role parameter, an element of it
+    (`dst_locations[0]`, `next(iter(dst_locations))`, the variable of a loop/comprehension over it) or a
+    temporary holding one; None otherwise."""
+    while depth > 0:
+        depth -= 1
+        if isinstance(e, (ast.Starred, ast.Await, ast.Subscript, ast.NamedExpr)):
+            e = e.value
+        elif isinstance(e, ast.Call) and isinstance(e.func, ast.Name) and e.func.id in ("next", "iter", "list", "tuple", "sorted", "reversed") and e.args:
+            e = e.args[0]
+        elif isinstance(e, ast.Name):
+            if e.id in f.params:
+                return _param_role(f, e.id)
+            d = deref(f, e)
+            if d is not e:
+                e = d
+                continue
+            lb = loop_binding(f, e.id, at, loops)
+            if lb is None or lb[1] is not None:
+                return None
+            e = lb[0].iter
+        else:
+            return None
+    return None
+
+
+def _path_sides(f, e: ast.AST, at: ast.AST, loops, depth: int = 4, seen=None) -> set:
+    """Sides of the path parameters (`src` / `dst`) an expression is built from (through temporaries, wrappers such
+    as shlex.quote / posixpath.dirname, f-strings, lists, loop variables)."""
+    seen = set() if seen is None else seen
+    out = set()
+    for x in ast.walk(e):
+        if not isinstance(x, ast.Name) or not isinstance(x.ctx, ast.Load):
+            continue
+        if x.id in f.params:
+            r = _param_role(f, x.id)
+            if r is not None and r[0] == "path":
+                out.add(r[1])
+            continue
+        if depth <= 0 or x.id in seen:
+            continue
+        seen.add(x.id)
+        d = deref(f, x)
+        if d is not x:
+            out |= _path_sides(f, d, at, loops, depth - 1, seen)
+        else:
+            lb = loop_binding(f, x.id, at, loops)
+            if lb is not None:
+                out |= _path_sides(f, lb[0].iter, at, loops, depth - 1, seen)
+    return out
+
+
+def r6(ctx):
+    """Side agreement: within a transfer helper a connector operation is addressed to ONE side -- the connector,
+    the location, the path operands of the command (when they all belong to one side) and the direction of a stream
+    (reader = source, writer = destination) agree; values forwarded under a side-named keyword keep their side."""
+    prog = ctx.prog
+    n_calls = 0
+    for f in _r1_funcs(prog):
+        if not any(_param_role(f, p) is not None and _param_role(f, p)[0] in ("connector", "location") for p in f.params):
+            continue
+        loops = loops_of(f)
+        short = f.qualname.split(".", 3)[-1]
+        for c in f.calls():
+            name = _callee_name(c)
+            ends = ([("<receiver>", c.func.value)] if isinstance(c.func, ast.Attribute) else []) + [(f"arg {i}", a) for i, a in enumerate(c.args)] + [
+                (k.arg or "**", k.value) for k in c.keywords]
+            roles = [(label, e, _endpoint_role(f, e, c, loops)) for label, e in ends]
+            cr = {r[1] for _l, _e, r in roles if r is not None and r[0] == "connector"}
+            lr = {r[1] for _l, _e, r in roles if r is not None and r[0] == "location"}
+            if not cr and not lr:
+                continue
+            # only operations of a connector and resolved helpers of the program (not logging / formatting)
+            targets = [prog.functions[q] for q in prog.resolve_call(f, c) if q in prog.functions]
+            is_op = isinstance(c.func, ast.Attribute) and (name in SIDE_OPS or (roles[0][2] is not None and roles[0][2][0] == "connector"))
+            if not targets and not is_op:
+                continue
+            # forwarding under side-named keywords
+            wrong = []
+            n_kw = 0
+            for k in c.keywords:
+                want = SIDE_PARAMS.get(k.arg or "")
+                if want is None:
+                    continue
+                if want[0] == "path":
+                    got = _path_sides(f, k.value, c, loops)
+                    if len(got) != 1:
+                        continue
+                    got = next(iter(got))
+                else:
+                    r = _endpoint_role(f, k.value, c, loops)
+                    if r is None or r[0] != want[0]:
+                        continue
+                    got = r[1]
+                n_kw += 1
+                if got != want[1]:
+                    wrong.append(f"{k.arg}={unparse(k.value)} (a {SIDE_WORD[got]}-side value)")
+            if n_kw:
+                ctx.ob("R6", f"{short} -> {name}: values passed under side-named keywords keep their side", not wrong, func=f, node=c,
+                       instance=f"{name}:kw-sides:{','.join(sorted(k.arg for k in c.keywords if k.arg in SIDE_PARAMS))}",
+                       message=f"{short}: `{name}(...)` receives " + "; ".join(wrong) + ": source and destination are crossed")
+            if len(cr) > 1 or len(lr) > 1:
+                continue  # both sides are handed on (a nested transfer helper): covered by the keyword check above
+            ps = set()
+            for _l, e, r in roles:
+                if r is None:
+                    ps |= _path_sides(f, e, c, loops)
+            facts = []
+            if cr:
+                facts.append(("connector", next(iter(cr)), next(unparse(e) for _l, e, r in roles if r is not None and r[0] == "connector")))
+            if lr:
+                facts.append(("location", next(iter(lr)), next(unparse(e) for _l, e, r in roles if r is not None and r[0] == "location")))
+            if len(ps) == 1:
+                side = next(iter(ps))
+                facts.append(("path operand", side, "src" if side == "src" else "dst"))
+            if name in STREAM_SIDE and isinstance(c.func, ast.Attribute):
+                facts.append(("stream direction", STREAM_SIDE[name], name))
+            if len(facts) < 2:
+                continue
+            n_calls += 1
+            sides = {s_ for _k, s_, _t in facts}
+            cmd = _kw(c, "command")
+            words = []
+            if cmd is not None:
+                for x in ast.walk(deref(f, cmd)):
+                    if isinstance(x, ast.Constant) and isinstance(x.value, str):
+                        words += x.value.split()
+            desc = "; ".join(f"{k} `{t}` = {SIDE_WORD[s_]}" for k, s_, t in facts)
+            ctx.ob("R6", f"{short}: {name}({' '.join(words)[:30]}) addresses one side ({desc})", len(sides) == 1, func=f, node=c,
+                   instance=f"{name}:side:{' '.join(words)[:40]}:{','.join(sorted(ps))}",
+                   message=f"{short}: `{' '.join(unparse(c).split())[:140]}` mixes the two sides of the transfer: {desc} -- a probe/command about the "
+                           f"{SIDE_WORD['src' if 'src' in ps or not ps else 'dst']} path answers for (or acts on) the other host's file system, so the writer/reader chosen from it does not fit the data")
+    ctx.require(n_calls >= 6, f"C22.R6: only {n_calls} side-addressed connector operations found in the transfer helpers "
+                              "(3 run probes of get_remote_to_remote_write_command, 1 of get_local_to_remote_destination, reader + writer of copy_remote_to_remote expected)")
+
+
+RULES = [("R1", r1), ("R2", r2), ("R3", lambda ctx: (r3(ctx), r3b(ctx))), ("R4", r4), ("R5", r5), ("R6", r6)]
+FLOORS = {"R1": 10, "R2": 10, "R3": 6, "R4": 14, "R5": 6, "R6": 8}
 
 BC = f"{BASE}.BaseConnector"
+_RP_FIRST = "DataLocation(location=location, path=path, relpath=relpath or path, data_type=data_type, available=False)"
+_RP_INNER = "DataLocation(location=location.wraps, path=str(path), relpath=relpath or str(path), data_type=data_type, available=False)"
+_RP_INNER_T = "DataLocation(location=location.wraps, path=inner_path, relpath=relpath or inner_path, data_type=data_type, available=False)"
 VARIANTS = [
     # ---- R1 (today's tree already holds unquoted operands in the helpers; these add new ones elsewhere)
     V("BaseConnector.copy_local_to_remote: dst spliced into the writer command", BASEFILE, f"{BC}.copy_local_to_remote",
@@ -772,6 +1114,26 @@ VARIANTS = [
     V("register_path: availability loop dropped", MGRFILE, f"{MGR}.register_path", "for loc in data_locations:\n        loc.available.set()\n    ", "", "R3"),
     V("register_path: early return before the availability loop", MGRFILE, f"{MGR}.register_path",
       "for loc in data_locations:\n        loc.available.set()", "if len(data_locations) == 1:\n        return data_locations[0]\n    for loc in data_locations:\n        loc.available.set()", "R3"),
+    V("DataLocation.__init__: `available` defaults to True (transfer_data relies on the default for the in-flight destination)", "streamflow/core/data.py",
+      f"{DLOC}.__init__", "available: bool=False", "available: bool=True", "R3"),
+    V("transfer_data: destination registered before the copy is created available explicitly", MGRFILE, f"{MGR}.transfer_data",
+      "relpath=src_data_location.relpath, data_type=DataType.PRIMARY)", "relpath=src_data_location.relpath, data_type=DataType.PRIMARY, available=True)", "R3"),
+    V("transfer_data: destination created available through a temporary, positionally", MGRFILE, f"{MGR}.transfer_data",
+      "dst_data_location = DataLocation(location=dst_location, path=str(loc_dst_path), relpath=src_data_location.relpath, data_type=DataType.PRIMARY)",
+      "ready = True\n            dst_data_location = DataLocation(dst_location, str(loc_dst_path), src_data_location.relpath, DataType.PRIMARY, ready)", "R3"),
+    V("register_path: first location held in a local and registered, but the collection starts empty", MGRFILE, f"{MGR}.register_path",
+      f"data_locations = [{_RP_FIRST}]\n    self.path_mapper.put(path=path, data_location=data_locations[0], recursive=True)",
+      f"outer_data_location = {_RP_FIRST}\n    data_locations = []\n    self.path_mapper.put(path=path, data_location=outer_data_location, recursive=True)", "R3"),
+    V("register_path: inner location held in a local and registered, never appended", MGRFILE, f"{MGR}.register_path",
+      f"data_locations.append({_RP_INNER})\n        self.path_mapper.put(path=str(path), data_location=data_locations[-1], recursive=True)",
+      f"inner_data_location = {_RP_INNER}\n        self.path_mapper.put(path=str(path), data_location=inner_data_location, recursive=True)", "R3"),
+    V("register_path: collection bound anew before the availability loop", MGRFILE, f"{MGR}.register_path",
+      "for loc in data_locations:\n        loc.available.set()", "data_locations = data_locations[1:]\n    for loc in data_locations:\n        loc.available.set()", "R3"),
+    V("register_path: collection emptied before the availability loop (named first location)", MGRFILE, f"{MGR}.register_path",
+      f"data_locations = [{_RP_FIRST}]\n    self.path_mapper.put(path=path, data_location=data_locations[0], recursive=True)",
+      f"outer_data_location = {_RP_FIRST}\n    data_locations = [outer_data_location]\n    self.path_mapper.put(path=path, data_location=outer_data_location, recursive=True)\n    data_locations.clear()", "R3"),
+    V("register_path: availability loop over the first element only", MGRFILE, f"{MGR}.register_path",
+      "for loc in data_locations:\n        loc.available.set()", "for loc in data_locations[:1]:\n        loc.available.set()", "R3"),
     # ---- R4
     V("BaseConnector.copy_remote_to_remote: read_only negated", BASEFILE, f"{BC}.copy_remote_to_remote", "dst=dst, read_only=read_only)", "dst=dst, read_only=not read_only)", "R4", control=True),
     V("wrapper: read_only forced to True", "streamflow/deployment/wrapper.py", "streamflow.deployment.wrapper.ConnectorWrapper.copy_remote_to_local",
@@ -803,7 +1165,42 @@ VARIANTS = [
     V("copy_remote_to_remote helper: default tar reader without h", BASEFILE, f"{BASE}.copy_remote_to_remote", "reader_command = ['tar', 'chf', '-',", "reader_command = ['tar', '-cf', '-',", "R5"),
     V("copy_local_to_remote helper: tar writer relies on the dereference default", BASEFILE, f"{BASE}.copy_local_to_remote", "mode='w', dereference=True,", "mode='w',", "R5"),
     V("copy_local_to_remote helper: dereference=False", BASEFILE, f"{BASE}.copy_local_to_remote", "dereference=True", "dereference=False", "R5"),
+    # ---- R6
+    V("get_remote_to_remote_write_command: `test -d <src>` probed on the destination connector/location", UTILSFILE, f"{UTILS}.get_remote_to_remote_write_command",
+      "is_src_dir, status = await src_connector.run(location=src_location,", "is_src_dir, status = await dst_connector.run(location=dst_locations[0],", "R6", control=True),
+    V("get_remote_to_remote_write_command: source probe on the destination connector only", UTILSFILE, f"{UTILS}.get_remote_to_remote_write_command",
+      "is_src_dir, status = await src_connector.run(", "is_src_dir, status = await dst_connector.run(", "R6"),
+    V("get_remote_to_remote_write_command: source probe on a destination location through a temporary", UTILSFILE, f"{UTILS}.get_remote_to_remote_write_command",
+      "is_src_dir, status = await src_connector.run(location=src_location,", "where = next(iter(dst_locations))\n        is_src_dir, status = await src_connector.run(location=where,", "R6"),
+    V("get_remote_to_remote_write_command: destination probe asks about the source path", UTILSFILE, f"{UTILS}.get_remote_to_remote_write_command",
+      "is_dst_dir, status = await dst_connector.run(location=dst_locations[0], command=['test', '-d', shlex.quote(dst)]",
+      "is_dst_dir, status = await dst_connector.run(location=dst_locations[0], command=['test', '-d', shlex.quote(src)]", "R6"),
+    V("get_remote_to_remote_write_command: mkdir of the destination issued on the source side", UTILSFILE, f"{UTILS}.get_remote_to_remote_write_command",
+      "asyncio.create_task(dst_connector.run(location=dst_location, command=['mkdir', '-p', shlex.quote(dst)])) for dst_location in dst_locations",
+      "asyncio.create_task(src_connector.run(location=src_location, command=['mkdir', '-p', shlex.quote(dst)])) for dst_location in dst_locations", "R6"),
+    V("get_local_to_remote_destination: destination probe asks about the (local) source path", UTILSFILE, f"{UTILS}.get_local_to_remote_destination",
+      "command=['test', '-d', shlex.quote(dst)]", "command=['test', '-d', shlex.quote(src)]", "R6"),
+    V("copy_remote_to_remote helper: tar reader opened on the destination", BASEFILE, f"{BASE}.copy_remote_to_remote",
+      "async with await source_connector.get_stream_reader(command=reader_command, location=source_location) as reader:",
+      "async with await connector.get_stream_reader(command=reader_command, location=locations[0]) as reader:", "R6"),
+    V("copy_remote_to_remote helper: writers opened on the source location", BASEFILE, f"{BASE}.copy_remote_to_remote",
+      "connector.get_stream_writer(command=writer_command, location=location)", "connector.get_stream_writer(command=writer_command, location=source_location)", "R6"),
+    V("copy_remote_to_remote helper: sides crossed when asking for the writer command", BASEFILE, f"{BASE}.copy_remote_to_remote",
+      "src_connector=source_connector, src_location=source_location, src=src, dst_connector=connector, dst_locations=locations, dst=dst",
+      "src_connector=connector, src_location=locations[0], src=src, dst_connector=connector, dst_locations=locations, dst=dst", "R6"),
     # ---- benign
+    V("benign: transfer_data spells the constructor default out", MGRFILE, f"{MGR}.transfer_data",
+      "relpath=src_data_location.relpath, data_type=DataType.PRIMARY)", "relpath=src_data_location.relpath, data_type=DataType.PRIMARY, available=False)", None),
+    V("benign: source probe through connector/location/operand temporaries", UTILSFILE, f"{UTILS}.get_remote_to_remote_write_command",
+      "is_src_dir, status = await src_connector.run(location=src_location, command=['test', '-d', shlex.quote(src)], capture_output=True)",
+      "probe_on = src_connector\n        where = src_location\n        quoted = shlex.quote(src)\n        probe = ['test', '-d', quoted]\n        is_src_dir, status = await probe_on.run(location=where, command=probe, capture_output=True)", None),
+    V("benign: destination probe on next(iter(dst_locations))", UTILSFILE, f"{UTILS}.get_remote_to_remote_write_command",
+      "is_dst_dir, status = await dst_connector.run(location=dst_locations[0],", "first = next(iter(dst_locations))\n    is_dst_dir, status = await dst_connector.run(location=first,", None),
+    V("benign: mkdir tasks built in a statement loop", UTILSFILE, f"{UTILS}.get_remote_to_remote_write_command",
+      "await asyncio.gather(*(asyncio.create_task(dst_connector.run(location=dst_location, command=['mkdir', '-p', shlex.quote(dst)])) for dst_location in dst_locations))",
+      "tasks = []\n            for target in dst_locations:\n                tasks.append(asyncio.create_task(dst_connector.run(location=target, command=['mkdir', '-p', shlex.quote(dst)])))\n            await asyncio.gather(*tasks)", None),
+    V("benign: log line mentions both sides", BASEFILE, f"{BASE}.copy_remote_to_remote",
+      "if writer_command is None:", "logger.debug('from %s to %s (%s)', src, dst, source_location)\n    if writer_command is None:", None),
     V("benign: copytree with the default spelled out", LOCALFILE, f"{LOCAL}._local_copy", "shutil.copytree(src, dst, dirs_exist_ok=True)",
       "shutil.copytree(src, dst, symlinks=False, dirs_exist_ok=True)", None),
     V("benign: copytree symlinks=read_only on the writable branch (false there)", LOCALFILE, f"{LOCAL}._local_copy", "shutil.copytree(src, dst, dirs_exist_ok=True)",
@@ -828,6 +1225,22 @@ VARIANTS = [
       "ro = not writable\n    if src_location.local:\n        await dst_connector.copy_local_to_remote(src=src, dst=dst, locations=dst_locations, read_only=ro)", None),
     V("benign: rename the availability loop variable + logging", MGRFILE, f"{MGR}.register_path", "for loc in data_locations:\n        loc.available.set()",
       "for registered in data_locations:\n        logger.debug('available')\n        registered.available.set()", None),
+    V("benign: register_path names the first location (B9-5: `data_locations = [outer_data_location]`)", MGRFILE, f"{MGR}.register_path",
+      f"data_locations = [{_RP_FIRST}]\n    self.path_mapper.put(path=path, data_location=data_locations[0], recursive=True)\n    self.context.checkpoint_manager.register(data_locations[0])",
+      f"outer_data_location = {_RP_FIRST}\n    data_locations = [outer_data_location]\n    self.path_mapper.put(path=path, data_location=outer_data_location, recursive=True)\n"
+      "    self.context.checkpoint_manager.register(outer_data_location)", None),
+    V("benign: register_path names the inner location and its path (B9-5)", MGRFILE, f"{MGR}.register_path",
+      f"data_locations.append({_RP_INNER})\n        self.path_mapper.put(path=str(path), data_location=data_locations[-1], recursive=True)\n"
+      "        self.register_relation(src_location=data_locations[0], dst_location=data_locations[-1])",
+      f"inner_path = str(path)\n        inner_data_location = {_RP_INNER_T}\n        data_locations.append(inner_data_location)\n"
+      "        self.path_mapper.put(path=inner_path, data_location=inner_data_location, recursive=True)\n"
+      "        self.register_relation(src_location=data_locations[0], dst_location=inner_data_location)", None),
+    V("benign: register_path names the first location, registers it through the collection, starts the list with +=", MGRFILE, f"{MGR}.register_path",
+      f"data_locations = [{_RP_FIRST}]\n    self.path_mapper.put(path=path, data_location=data_locations[0], recursive=True)",
+      f"outer_data_location = {_RP_FIRST}\n    data_locations = []\n    data_locations += [outer_data_location]\n    first = data_locations[0]\n"
+      "    self.path_mapper.put(path=path, data_location=first, recursive=True)", None),
+    V("benign: availability loop over a reversed copy of the collection", MGRFILE, f"{MGR}.register_path",
+      "for loc in data_locations:\n        loc.available.set()", "for loc in reversed(list(data_locations)):\n        loc.available.set()", None),
     V("benign: wrapper drops the keyword (full copy)", "streamflow/deployment/wrapper.py", "streamflow.deployment.wrapper.ConnectorWrapper.copy_remote_to_local",
       "location=location, read_only=read_only)", "location=location)", None),
     V("benign: _local_copy uses copy2", LOCALFILE, f"{LOCAL}._local_copy", "shutil.copy(src, dst)", "shutil.copy2(src, dst)", None),
